@@ -180,34 +180,59 @@ func c16ShiftedSlot(sh map[string]string, k int) uint64 { return c16Slots(sh) + 
 type c16NodeInst struct {
 	node   *c16Server
 	client eth2client.Service
-	rec    *c16Recorder
-	ct     *verifsupport.ChainTime
-	gate   *c16Gate
+	// a strategy is wired between the service and the nodes (style # direct): a second node, and the real clients
+	// of both keyed by node address as in main.go
+	style   string
+	node1   *c16Server
+	clients map[string]eth2client.Service
+	rec     *c16Recorder
+	ct      *verifsupport.ChainTime
+	gate    *c16Gate
 }
 
-func c16NewNodeInst(ctx context.Context, gated ...string) *c16NodeInst {
-	in := &c16NodeInst{node: c16NewNode(c16NodeVersion("teku")), rec: &c16Recorder{}, ct: verifsupport.NewChainTime(32, 12*time.Second), gate: &c16Gate{}}
+func c16NewNodeInst(ctx context.Context, style string, gated ...string) *c16NodeInst {
+	if style == "" {
+		style = "direct"
+	}
+	in := &c16NodeInst{node: c16NewNode(c16NodeVersion("teku")), rec: &c16Recorder{}, ct: verifsupport.NewChainTime(32, 12*time.Second), gate: &c16Gate{},
+		style: style, clients: map[string]eth2client.Service{}}
 	for _, prefix := range gated {
 		in.node.Gate(prefix, in.gate)
 	}
 	in.client = c16NodeClient(ctx, in.node)
+	if style != "direct" {
+		in.node1 = c16NewNode(c16NodeVersion("lighthouse"))
+		in.clients[in.node.URL()] = in.client
+		in.clients[in.node1.URL()] = c16NodeClient(ctx, in.node1)
+	}
 	return in
+}
+
+// SetBoth scripts an endpoint of the node(s): node 0 answers the shape's `body`, the second node its `node1`.
+func (in *c16NodeInst) SetBoth(prefix string, sh map[string]string, answer func(kind string) c16Answer) {
+	in.node.Set(prefix, answer(sh["body"]))
+	if in.node1 != nil {
+		in.node1.Set(prefix, answer(c16Node1Kind(sh)))
+	}
 }
 
 func (in *c16NodeInst) Gate() *c16Gate { return in.gate }
 func (in *c16NodeInst) Close() {
 	in.gate.Release()
 	in.node.Close()
+	if in.node1 != nil {
+		in.node1.Close()
+	}
 }
 
-func c16NewAttester(ctx context.Context, client eth2client.Service, ct *verifsupport.ChainTime, rec *c16Recorder) *standardattester.Service {
+func c16NewAttester(ctx context.Context, provider eth2client.AttestationDataProvider, ct *verifsupport.ChainTime, rec *c16Recorder) *standardattester.Service {
 	s, err := standardattester.New(ctx,
 		standardattester.WithLogLevel(c16LogLevel()),
 		standardattester.WithProcessConcurrency(2),
 		standardattester.WithMonitor(nullmetrics.New()),
 		standardattester.WithChainTime(ct),
 		standardattester.WithSpecProvider(mock.NewSpecProvider()),
-		standardattester.WithAttestationDataProvider(client.(eth2client.AttestationDataProvider)),
+		standardattester.WithAttestationDataProvider(provider),
 		standardattester.WithAttestationsSubmitter(rec),
 		standardattester.WithValidatingAccountsProvider(c16AccountsProvider(1, 2, 3)),
 		standardattester.WithBeaconAttestationsSigner(&c16Signer{}),
@@ -225,14 +250,14 @@ type c16AttesterInst struct {
 	s *standardattester.Service
 }
 
-func c16NewAttesterInst(ctx context.Context, _ map[string]string) c16Instance {
-	in := &c16AttesterInst{c16NodeInst: c16NewNodeInst(ctx, "/eth/v1/validator/attestation_data")}
-	in.s = c16NewAttester(ctx, in.client, in.ct, in.rec)
+func c16NewAttesterInst(ctx context.Context, first map[string]string) c16Instance {
+	in := &c16AttesterInst{c16NodeInst: c16NewNodeInst(ctx, first["style"], "/eth/v1/validator/attestation_data")}
+	in.s = c16NewAttester(ctx, c16AttestationDataProvider(ctx, in.style, in.clients, in.client, in.ct), in.ct, in.rec)
 	return in
 }
 
 func (in *c16AttesterInst) Prepare(_ int, sh map[string]string) {
-	in.node.Set("/eth/v1/validator/attestation_data", c16AttestationDataAnswer(sh["body"]))
+	in.SetBoth("/eth/v1/validator/attestation_data", sh, c16AttestationDataAnswer)
 }
 
 func (in *c16AttesterInst) Invoke(ctx context.Context, k int, sh map[string]string) c16Res {
@@ -240,6 +265,7 @@ func (in *c16AttesterInst) Invoke(ctx context.Context, k int, sh map[string]stri
 	in.ct.SetSlot(slot)
 	before := in.rec.Count()
 	atts, err := in.s.Attest(ctx, c16AttesterDuty(sh["duty"], slot))
+	c16Settle(in.style)
 	if err != nil {
 		return c16Err(err.Error())
 	}
@@ -267,7 +293,7 @@ func c16AggregateData(slot uint64) *phase0.AttestationData {
 }
 
 func c16NewAggregatorInst(ctx context.Context, first map[string]string) c16Instance {
-	in := &c16AggregatorInst{c16NodeInst: c16NewNodeInst(ctx, "/eth/v1/validator/aggregate_attestation")}
+	in := &c16AggregatorInst{c16NodeInst: c16NewNodeInst(ctx, first["style"], "/eth/v1/validator/aggregate_attestation")}
 	accounts := c16AccountsProvider()
 	if first["account"] == "present" {
 		accounts = c16AccountsProvider(1)
@@ -278,7 +304,7 @@ func c16NewAggregatorInst(ctx context.Context, first map[string]string) c16Insta
 		standardaggregator.WithSpecProvider(&c16Spec{}),
 		standardaggregator.WithChainTime(in.ct),
 		standardaggregator.WithValidatingAccountsProvider(accounts),
-		standardaggregator.WithAggregateAttestationProvider(in.client.(eth2client.AggregateAttestationProvider)),
+		standardaggregator.WithAggregateAttestationProvider(c16AggregateAttestationProvider(ctx, in.style, in.clients, in.client)),
 		standardaggregator.WithAggregateAttestationsSubmitter(in.rec),
 		standardaggregator.WithSlotSelectionSigner(&c16Signer{}),
 		standardaggregator.WithAggregateAndProofSigner(&c16Signer{}),
@@ -292,15 +318,19 @@ func c16NewAggregatorInst(ctx context.Context, first map[string]string) c16Insta
 
 func (in *c16AggregatorInst) Prepare(_ int, sh map[string]string) {
 	// the aggregate is for the slot that is asked for
-	in.node.Set("/eth/v1/validator/aggregate_attestation", c16Answer{Func: func(r *http.Request) c16Answer {
-		if a, ok := c16BadAnswer(sh["body"]); ok {
+	in.SetBoth("/eth/v1/validator/aggregate_attestation", sh, func(kind string) c16Answer { return c16AggregateAnswer(kind) })
+}
+
+func c16AggregateAnswer(kind string) c16Answer {
+	return c16Answer{Func: func(r *http.Request) c16Answer {
+		if a, ok := c16BadAnswer(kind); ok {
 			return a
 		}
 		var slot uint64
 		fmt.Sscanf(r.URL.Query().Get("slot"), "%d", &slot)
 		data := c16MustJSON(c16AggregateData(slot))
 		bits := `"aggregation_bits":"0xff01",`
-		switch sh["body"] {
+		switch kind {
 		case "nullinner":
 			data = "null"
 		case "emptybits":
@@ -309,7 +339,7 @@ func (in *c16AggregatorInst) Prepare(_ int, sh map[string]string) {
 			bits = ""
 		}
 		return c16JSON(fmt.Sprintf(`{"data":{%s"data":%s,"signature":"%#x"}}`, bits, data, make([]byte, 96)))
-	}})
+	}}
 }
 
 func (in *c16AggregatorInst) Invoke(ctx context.Context, k int, sh map[string]string) c16Res {
@@ -321,6 +351,7 @@ func (in *c16AggregatorInst) Invoke(ctx context.Context, k int, sh map[string]st
 	}
 	before := in.rec.Count()
 	in.s.Aggregate(ctx, &attestationaggregator.Duty{Slot: phase0.Slot(slot), AttestationDataRoot: attRoot, ValidatorIndex: 1, SlotSignature: phase0.BLSSignature{0x01}})
+	c16Settle(in.style)
 	if in.rec.Count() == before {
 		return c16Err("no aggregate submitted")
 	}
@@ -351,8 +382,8 @@ type c16SyncMessengerInst struct {
 	s *standardsyncmessenger.Service
 }
 
-func c16NewSyncMessengerInst(ctx context.Context, _ map[string]string) c16Instance {
-	in := &c16SyncMessengerInst{c16NodeInst: c16NewNodeInst(ctx, "/eth/v1/beacon/blocks/head/root")}
+func c16NewSyncMessengerInst(ctx context.Context, first map[string]string) c16Instance {
+	in := &c16SyncMessengerInst{c16NodeInst: c16NewNodeInst(ctx, first["style"], "/eth/v1/beacon/blocks/head/root")}
 	s, err := standardsyncmessenger.New(ctx,
 		standardsyncmessenger.WithLogLevel(c16LogLevel()),
 		standardsyncmessenger.WithProcessConcurrency(2),
@@ -360,7 +391,7 @@ func c16NewSyncMessengerInst(ctx context.Context, _ map[string]string) c16Instan
 		standardsyncmessenger.WithChainTimeService(in.ct),
 		standardsyncmessenger.WithSyncCommitteeAggregator(&c16SyncAggregatorStub{}),
 		standardsyncmessenger.WithSpecProvider(mock.NewSpecProvider()),
-		standardsyncmessenger.WithBeaconBlockRootProvider(in.client.(eth2client.BeaconBlockRootProvider)),
+		standardsyncmessenger.WithBeaconBlockRootProvider(c16BlockRootProvider(ctx, in.style, in.clients, in.client)),
 		standardsyncmessenger.WithSyncCommitteeMessagesSubmitter(in.rec),
 		standardsyncmessenger.WithValidatingAccountsProvider(c16AccountsProvider(1, 2)),
 		standardsyncmessenger.WithSyncCommitteeRootSigner(&c16Signer{}),
@@ -375,7 +406,7 @@ func c16NewSyncMessengerInst(ctx context.Context, _ map[string]string) c16Instan
 }
 
 func (in *c16SyncMessengerInst) Prepare(_ int, sh map[string]string) {
-	in.node.Set("/eth/v1/beacon/blocks/head/root", c16RootAnswer(sh["body"]))
+	in.SetBoth("/eth/v1/beacon/blocks/head/root", sh, c16RootAnswer)
 }
 
 func (in *c16SyncMessengerInst) Invoke(ctx context.Context, k int, sh map[string]string) c16Res {
@@ -395,6 +426,7 @@ func (in *c16SyncMessengerInst) Invoke(ctx context.Context, k int, sh map[string
 	}
 	prepErr := in.s.Prepare(ctx, duty)
 	msgs, err := in.s.Message(ctx, duty)
+	c16Settle(in.style)
 	if err != nil {
 		return c16Err(err.Error())
 	}
@@ -414,8 +446,8 @@ type c16SyncAggregatorInst struct {
 	s *standardsyncaggregator.Service
 }
 
-func c16NewSyncAggregatorInst(ctx context.Context, _ map[string]string) c16Instance {
-	in := &c16SyncAggregatorInst{c16NodeInst: c16NewNodeInst(ctx, "/eth/v1/validator/sync_committee_contribution")}
+func c16NewSyncAggregatorInst(ctx context.Context, first map[string]string) c16Instance {
+	in := &c16SyncAggregatorInst{c16NodeInst: c16NewNodeInst(ctx, first["style"], "/eth/v1/validator/sync_committee_contribution")}
 	in.node.Set("/eth/v1/beacon/blocks/head/root", c16RootAnswer("valid"))
 	s, err := standardsyncaggregator.New(ctx,
 		standardsyncaggregator.WithLogLevel(c16LogLevel()),
@@ -425,7 +457,7 @@ func c16NewSyncAggregatorInst(ctx context.Context, _ map[string]string) c16Insta
 		standardsyncaggregator.WithBeaconBlockRootProvider(in.client.(eth2client.BeaconBlockRootProvider)),
 		standardsyncaggregator.WithContributionAndProofSigner(&c16Signer{}),
 		standardsyncaggregator.WithValidatingAccountsProvider(c16AccountsProvider(1)),
-		standardsyncaggregator.WithSyncCommitteeContributionProvider(in.client.(eth2client.SyncCommitteeContributionProvider)),
+		standardsyncaggregator.WithSyncCommitteeContributionProvider(c16ContributionProvider(ctx, in.style, in.clients, in.client)),
 		standardsyncaggregator.WithSyncCommitteeContributionsSubmitter(in.rec),
 	)
 	if err != nil {
@@ -436,21 +468,25 @@ func c16NewSyncAggregatorInst(ctx context.Context, _ map[string]string) c16Insta
 }
 
 func (in *c16SyncAggregatorInst) Prepare(_ int, sh map[string]string) {
-	in.node.Set("/eth/v1/validator/sync_committee_contribution", c16Answer{Func: func(r *http.Request) c16Answer {
-		if a, ok := c16BadAnswer(sh["body"]); ok {
+	in.SetBoth("/eth/v1/validator/sync_committee_contribution", sh, c16ContributionAnswer)
+}
+
+func c16ContributionAnswer(kind string) c16Answer {
+	return c16Answer{Func: func(r *http.Request) c16Answer {
+		if a, ok := c16BadAnswer(kind); ok {
 			return a
 		}
 		var slot uint64
 		fmt.Sscanf(r.URL.Query().Get("slot"), "%d", &slot)
 		bits := fmt.Sprintf(`"aggregation_bits":"%#x",`, make([]byte, 16))
-		switch sh["body"] {
+		switch kind {
 		case "emptybits":
 			bits = `"aggregation_bits":"0x",`
 		case "nobits":
 			bits = ""
 		}
 		return c16JSON(fmt.Sprintf(`{"data":{"slot":"%d","beacon_block_root":"%#x","subcommittee_index":"0",%s"signature":"%#x"}}`, slot, phase0.Root{0xbb}, bits, make([]byte, 96)))
-	}})
+	}}
 }
 
 func (in *c16SyncAggregatorInst) Invoke(ctx context.Context, k int, sh map[string]string) c16Res {
@@ -466,6 +502,7 @@ func (in *c16SyncAggregatorInst) Invoke(ctx context.Context, k int, sh map[strin
 		SelectionProofs:  map[phase0.ValidatorIndex]map[uint64]phase0.BLSSignature{1: {0: {0x01}}},
 		Accounts:         map[phase0.ValidatorIndex]e2wtypes.Account{1: c16Account(1)},
 	})
+	c16Settle(in.style)
 	if in.rec.Count() == before {
 		return c16Err("no contribution submitted")
 	}
@@ -531,10 +568,10 @@ type c16MergeDutiesInst struct {
 }
 
 func c16NewMergeDutiesInst(ctx context.Context, _ map[string]string) c16Instance {
-	in := &c16MergeDutiesInst{c16NodeInst: c16NewNodeInst(ctx, "/eth/v1/validator/attestation_data")}
+	in := &c16MergeDutiesInst{c16NodeInst: c16NewNodeInst(ctx, "direct", "/eth/v1/validator/attestation_data")}
 	in.node.Set("/eth/v1/config/spec", c16JSON(c16SpecBody))
 	in.node.Set("/eth/v1/validator/attestation_data", c16AttestationDataAnswer("valid"))
-	in.s = c16NewAttester(ctx, in.client, in.ct, in.rec)
+	in.s = c16NewAttester(ctx, in.client.(eth2client.AttestationDataProvider), in.ct, in.rec)
 	return in
 }
 
